@@ -284,6 +284,8 @@ pub enum Alt {
   /// the same message of an earlier, completed handshake of the same two participants
   FromOldRun,
   ClassId(u8),
+  /// one byte of the class id string altered (an id that is none of the three handshake ids)
+  ClassIdByte(usize),
   DropProp(String),
   RenameProp(String),
   EmptyProp(String),
@@ -346,6 +348,14 @@ pub fn apply(alt: &Alt, m: &Token, old: &Token) -> Option<Token> {
         return None;
       }
       t.data_holder.class_id = c.into();
+    }
+    Alt::ClassIdByte(i) => {
+      let mut b = t.data_holder.class_id.clone().into_bytes();
+      if *i >= b.len() {
+        return None;
+      }
+      b[*i] ^= 0x01;
+      t.data_holder.class_id = String::from_utf8_lossy(&b).into_owned();
     }
     Alt::DropProp(n) => {
       let before = t.data_holder.binary_properties.len();
